@@ -26,7 +26,11 @@ RULE = ("(1) one interval-arithmetic certificate (a Coq lemma |model expression 
         "oblique, with offsets, mindist 0 / small / large / tiny, Poisson ratios in [-1, 1] with the documented special values "
         "(-1, 0, 1) in half and mindist = 0 in a fifth of the elastic samples plus all their combinations; CheckerBoard through "
         "predict (points, 2-D arrays) and grid() with the four option combinations (defaults, only w_east, only w_north, both "
-        "given) in equal shares on regions away from the origin, and the w_east_/w_north_ properties exactly; (2) predict against jacobian x parameters exactly on dyadics for externally set and fitted parameters and "
+        "given) in equal shares on regions away from the origin, and the w_east_/w_north_ properties exactly; in EVERY stream the "
+        "estimator receives its options (Linear/Cubic rescale, Spline mindist/damping/force_coords, VectorSpline2D "
+        "poisson/mindist/force_coords, Trend degree, CheckerBoard amplitude/region/w_east/w_north) in fixed equal shares through "
+        "constructor arguments, set_params after a default or deliberately different construction, sklearn.base.clone of a "
+        "configured instance, or attribute assignment - the observed behaviour must follow the options in force at fit/predict time; (2) predict against jacobian x parameters exactly on dyadics for externally set and fitted parameters and "
         "1-D / 2-D / scalar-broadcast query shapes (Spline, VectorSpline2D, Trend); (3) Trend.jacobian columns against exact "
         "monomials in the documented order for degrees 0..6(8) and polynomial_power_combinations against the model (generator + "
         "stable sort) and the closed form; (4) jacobians of dyadically shifted coordinates bit-equal; (5) Linear/Cubic against "
@@ -43,6 +47,52 @@ TRUSTED = ["harness/c03.py (generators, certificate statements generated from th
 U = 2.0 ** -52
 CERT_HEADER = ("From Coq Require Import Reals.\nFrom Interval Require Import Tactic.\n"
                "From Verde Require Import Model.Kernels Proofs.KernelsProofs.\nOpen Scope R_scope.\n")
+
+
+# ---------------------------------------------------------------------------
+# how an estimator gets its options: the behaviour must follow the options in force at fit / predict time
+# ---------------------------------------------------------------------------
+MODES = ("constructor", "set_params", "clone", "attribute")
+_COUNT = {}
+LAST_MODE = {"mode": None}
+
+
+def conf(cls, options, tag, decoy=None, required=()):
+    """an estimator of class cls whose options are `options`, obtained - in fixed equal shares per stream `tag` - through
+    constructor arguments, cls(<defaults or deliberately different options>).set_params(**options), sklearn.base.clone of a
+    configured instance, or plain attribute assignment after construction.  Returns (estimator, description)."""
+    from sklearn.base import clone
+    n = _COUNT.get(tag, 0)
+    _COUNT[tag] = n + 1
+    mode = MODES[(n + n // 4) % 4]
+    use_decoy = decoy is not None and (n // 4) % 2 == 1
+    desc = mode
+    with warnings.catch_warnings():
+        warnings.simplefilter("ignore")
+        if mode == "constructor":
+            g = cls(**options)
+        elif mode == "clone":
+            g = clone(cls(**options))
+        else:
+            base = dict(decoy) if use_decoy else {k: decoy[k] for k in required}
+            g = cls(**base)
+            desc = "%s after %s(%s)" % (mode, cls.__name__, ", ".join("%s=%r" % kv for kv in base.items()))
+            if mode == "set_params":
+                g.set_params(**options)
+            else:
+                for k, v in options.items():
+                    setattr(g, k, v)
+    LAST_MODE["mode"] = desc
+    return g, desc
+
+
+def conf_spline(vd, md, tag, **extra):
+    """verde.Spline: the constructor turns mindist=None into 0; pass the number when the option is set later"""
+    opts = dict(extra)
+    n = _COUNT.get(tag, 0)
+    mode = MODES[(n + n // 4) % 4]
+    opts["mindist"] = (None if (md == 0 and mode in ("constructor", "clone") and n % 3) else md)
+    return conf(vd.Spline, opts, tag, decoy={"mindist": 7.5, "damping": 123.0})
 
 
 # ---------------------------------------------------------------------------
@@ -72,6 +122,8 @@ class Cert:
         self.nontrivial = nontrivial
         self.ok = None
         self.log = ""
+        if isinstance(self.inp, dict):
+            self.inp["configured"] = LAST_MODE["mode"]
         if "non_finite" in stmt:
             self.ok = False
             self.log = "observed value or tolerance is not finite"
@@ -265,7 +317,7 @@ def spline_samples(vd, rnd, tier):
                 e, n = fe + dx, fn + dy
                 with warnings.catch_warnings():
                     warnings.simplefilter("ignore")
-                    sp = vd.Spline(mindist=md if md else None)
+                    sp, _ = conf_spline(vd, float(md), "cert-spline")
                     J = sp.jacobian((np.array([e]), np.array([n])), (np.array([fe]), np.array([fn])))
                 certs.append(spline_cert(e, n, fe, fn, float(md), float(J[0, 0]), "cert-spline"))
     # coincident points
@@ -273,7 +325,7 @@ def spline_samples(vd, rnd, tier):
         for md in ([0.0, 0.5, 1.0, 1e-12, 1e-300] if tier == "quick" else [0.0, 0.5, 1.0, 1e-12, E_DOUBLE, 1e-3, 7.0, 1e8] + TINY):
             with warnings.catch_warnings():
                 warnings.simplefilter("ignore")
-                sp = vd.Spline(mindist=md if md else None)
+                sp, _ = conf_spline(vd, float(md), "cert-spline-coincident")
                 J = sp.jacobian((np.array([pe, pe + 1]), np.array([pn, pn])), (np.array([pe]), np.array([pn])))
             certs.append(spline_cert(pe, pn, pe, pn, float(md), float(J[0, 0]), "cert-spline-coincident"))
     return certs
@@ -305,7 +357,7 @@ def elastic_samples(vd, rnd, tier):
                     md = 0.0   # ... and every fifth mindist = 0 ("mindist values >= 0": allowed when the points are apart)
                 fe, fn = rnd.choice([(0.0, 0.0), (2.5, -1.0), (-1024.0, 512.0)]) if r >= 1e-3 else (0.0, 0.0)
                 e, n = fe + dx, fn + dy
-                J = vd.VectorSpline2D(poisson=nu, mindist=md).jacobian((np.array([e]), np.array([n])), (np.array([fe]), np.array([fn])))
+                J = conf(vd.VectorSpline2D, {"poisson": nu, "mindist": md}, "cert-elastic", decoy={"poisson": 0.123, "mindist": 77.0})[0].jacobian((np.array([e]), np.array([n])), (np.array([fe]), np.array([fn])))
                 ee, ne, ne2, nn = float(J[0, 0]), float(J[0, 1]), float(J[1, 0]), float(J[1, 1])
                 kind = "cert-elastic-coincident" if r == 0 else "cert-elastic"
                 certs.append(elastic_cert("ee", e, n, fe, fn, float(md), nu, ee, kind))
@@ -321,7 +373,7 @@ def elastic_samples(vd, rnd, tier):
                 dx, dy = _directions(rnd, r * rnd.uniform(0.7, 1.4))[3 + k % 2]
                 fe, fn = [(0.0, 0.0), (2.5, -1.0), (-1024.0, 512.0)][k % 3]
                 e, n = fe + dx, fn + dy
-                J = vd.VectorSpline2D(poisson=nu, mindist=md).jacobian((np.array([e]), np.array([n])), (np.array([fe]), np.array([fn])))
+                J = conf(vd.VectorSpline2D, {"poisson": nu, "mindist": md}, "cert-elastic", decoy={"poisson": 0.123, "mindist": 77.0})[0].jacobian((np.array([e]), np.array([n])), (np.array([fe]), np.array([fn])))
                 kind = "cert-elastic-special-poisson%+d-mindist%s" % (int(nu), "0" if md == 0 else "pos")
                 certs.append(elastic_cert("ee", e, n, fe, fn, float(md), nu, float(J[0, 0]), kind))
                 certs.append(elastic_cert("nn", e, n, fe, fn, float(md), nu, float(J[1, 1]), kind))
@@ -335,7 +387,7 @@ def elastic_samples(vd, rnd, tier):
             k += 1
             nu = nus[k % len(nus)]
             e, n = fe + dx, fn + dy
-            J = vd.VectorSpline2D(poisson=nu, mindist=md).jacobian((np.array([e]), np.array([n])), (np.array([fe]), np.array([fn])))
+            J = conf(vd.VectorSpline2D, {"poisson": nu, "mindist": md}, "cert-elastic", decoy={"poisson": 0.123, "mindist": 77.0})[0].jacobian((np.array([e]), np.array([n])), (np.array([fe]), np.array([fn])))
             kind = "cert-elastic-tiny-mindist-coincident" if (dx == 0 and dy == 0) else "cert-elastic-tiny-mindist"
             certs.append(elastic_cert("ee", e, n, fe, fn, float(md), nu, float(J[0, 0]), kind))
             certs.append(elastic_cert("nn", e, n, fe, fn, float(md), nu, float(J[1, 1]), kind))
@@ -367,7 +419,8 @@ def checker_samples(vd, rnd, tier):
         waves = CB_WAVES[(i // 4 + i // 24) % len(CB_WAVES)]
         we, wn = _cb_options(i, region, waves)
         amp = rnd.choice([1000.0, 1.0, -2.5, 37.0])
-        cb = vd.synthetic.CheckerBoard(amplitude=amp, region=region, w_east=we, w_north=wn)
+        cb, _ = conf(vd.synthetic.CheckerBoard, {"amplitude": amp, "region": region, "w_east": we, "w_north": wn}, "cert-checkerboard",
+                     decoy={"amplitude": 3.25, "region": (-1.0, 9.0, 5.0, 6.0), "w_east": 11.0, "w_north": 0.7})
         e = rnd.uniform(region[0], region[1]) if i % 3 else region[0] + (region[1] - region[0]) * rnd.choice([0, 0.125, 0.25, 1])
         nn = rnd.uniform(region[2], region[3]) if i % 5 else region[2] + (region[3] - region[2]) * rnd.choice([0, 0.25, 0.5])
         if (i // 4) % 2:
@@ -386,7 +439,8 @@ def checker_samples(vd, rnd, tier):
         waves = CB_WAVES[(i // 4 + 2) % len(CB_WAVES)]
         we, wn = _cb_options(i, region, waves)
         amp = rnd.choice([1000.0, 25.0, -2.5])
-        cb = vd.synthetic.CheckerBoard(amplitude=amp, region=region, w_east=we, w_north=wn)
+        cb, _ = conf(vd.synthetic.CheckerBoard, {"amplitude": amp, "region": region, "w_east": we, "w_north": wn}, "cert-checkerboard-grid",
+                     decoy={"amplitude": 3.25, "region": (-1.0, 9.0, 5.0, 6.0), "w_east": 11.0, "w_north": 0.7})
         grid = cb.grid(shape=(4, 5))
         vals = np.asarray(grid.scalars.values, dtype=float)
         ge = np.asarray(grid.easting.values, dtype=float); gn = np.asarray(grid.northing.values, dtype=float)
@@ -435,7 +489,15 @@ def _query(rnd, shape_kind, lo=-20.0, hi=20.0):
 SHAPES = ["1d", "2d", "grid"]
 
 
-def predict_spline_case(vd, rnd, fitted, kind):
+def _ls_ok(force, J, data, damping):
+    """the fitted forces are least_squares(jacobian, data, None, damping) for the damping IN FORCE at fit time"""
+    from verde.base.least_squares import least_squares
+    ref = least_squares(np.array(J, dtype=float), np.asarray(data, dtype=float).ravel(), None, damping)
+    scale = float(np.max(np.abs(ref))) if ref.size else 0.0
+    return bool(force.shape == ref.shape and np.all(np.abs(force - ref) <= 1e-9 * scale + 1e-300))
+
+
+def predict_spline_case(vd, rnd, fitted, kind, idx=0):
     m = rnd.randint(1, 9)
     fe = np.array([rnd.uniform(-20, 20) for _ in range(m)])
     fn = np.array([rnd.uniform(-20, 20) for _ in range(m)])
@@ -445,27 +507,46 @@ def predict_spline_case(vd, rnd, fitted, kind):
     if rnd.random() < 0.4:   # some query points on top of forces
         qe = qe.copy(); qn = qn.copy()
         qe.flat[0] = fe[0]; qn.flat[0] = fn[0]
+    # options in force at fit time (fixed cycles): damping, force_coords
+    damping = [None, 1e-2, None, 10.0][(idx // 2) % 4] if fitted else None
+    use_fc = fitted and (idx // 2) % 3 == 1
+    opts_ok = True
     with warnings.catch_warnings():
         warnings.simplefilter("ignore")
-        sp = vd.Spline(mindist=md if md else None)
+        extra = {}
         if fitted:
-            data = np.array([rnd.uniform(-5, 5) for _ in range(m)])
-            sp.fit((fe, fn), data)
+            extra = {"damping": damping, "force_coords": (fe, fn) if use_fc else None}
+        sp, how = conf_spline(vd, float(md), "predict-spline", **extra)
+        if fitted:
+            if use_fc:
+                nd = m + rnd.randint(0, 4)
+                de = np.array([rnd.uniform(-20, 20) for _ in range(nd)]); dn = np.array([rnd.uniform(-20, 20) for _ in range(nd)])
+            else:
+                de, dn = fe, fn
+            data = np.array([rnd.uniform(-5, 5) for _ in range(de.size)])
+            sp.fit((de, dn), data)
+            fc = sp.force_coords_
+            opts_ok = (len(fc) == 2 and np.array_equal(fc[0], fe) and np.array_equal(fc[1], fn)
+                       and _ls_ok(sp.force_, sp.jacobian((de, dn), (fe, fn)), data, damping))
         else:
             sp.force_coords_ = (fe, fn)
             sp.force_ = np.array([rnd.choice([rnd.uniform(-3, 3), rnd.uniform(-1e3, 1e3), 0.0, 1.0]) for _ in range(m)])
             sp.region_ = (-20, 20, -20, 20)
         y = sp.predict((qe, qn))
         J = sp.jacobian((qe, qn), sp.force_coords_)
-    shape_ok = (y.shape == qe.shape) and J.shape == (qe.size, m)
+        # the kernel must be the one of the mindist in force: a constructor-configured reference instance, bit for bit
+        Jref = vd.Spline(mindist=md if md else None).jacobian((qe, qn), (fe, fn))
+        opts_ok = bool(opts_ok and J.shape == Jref.shape and np.array_equal(J, Jref, equal_nan=True))
+    shape_ok = (y.shape == qe.shape) and J.shape == (qe.size, m) and opts_ok
     term = ("c03_predict %s %s %s %s" % (cmat(J), cvec(sp.force_), cvec(y), cbool(shape_ok))) if _fin(J, sp.force_, y) else "c03_flag false"
-    inp = {"gridder": "Spline", "mindist": md, "fitted": fitted, "force_east": fe.tolist(), "force_north": fn.tolist(),
+    inp = {"gridder": "Spline", "configured": how, "mindist": md, "damping": damping, "force_coords_option": bool(use_fc), "fitted": fitted,
+           "force_east": fe.tolist(), "force_north": fn.tolist(),
            "force": sp.force_.tolist(), "query_east": qe.tolist(), "query_north": qn.tolist()}
     repro = ("import verde, numpy as np, warnings; warnings.simplefilter('ignore'); s = verde.Spline(mindist=%r); "
              "s.force_coords_ = (np.array(%r), np.array(%r)); s.force_ = np.array(%r); q = (np.array(%r), np.array(%r)); "
-             "print(s.predict(q).ravel() - s.jacobian(q, s.force_coords_) @ s.force_)"
-             % (md if md else None, fe.tolist(), fn.tolist(), sp.force_.tolist(), qe.tolist(), qn.tolist()))
-    return Case(inp, {"predict": np.asarray(y).ravel().tolist()}, term, repro, kind)
+             "print(s.predict(q).ravel() - s.jacobian(q, s.force_coords_) @ s.force_)  # options configured by: %s"
+             % (md if md else None, fe.tolist(), fn.tolist(), sp.force_.tolist(), qe.tolist(), qn.tolist(), how))
+    return Case(inp, {"predict": np.asarray(y).ravel().tolist(), "options_honoured": bool(opts_ok)}, term, repro, kind)
 
 
 def predict_vector_case(vd, rnd, fitted, kind, idx=0):
@@ -484,20 +565,35 @@ def predict_vector_case(vd, rnd, fitted, kind, idx=0):
     if rnd.random() < 0.4 and not md0:
         qe = qe.copy(); qn = qn.copy()
         qe.flat[0] = fe[0]; qn.flat[0] = fn[0]
-    vs = vd.VectorSpline2D(poisson=nu, mindist=md)
+    use_fc = fitted and (idx // 2) % 3 == 2
+    vopts = {"poisson": nu, "mindist": md}
+    if use_fc:
+        vopts["force_coords"] = (fe, fn)
+    vs, how = conf(vd.VectorSpline2D, vopts, "predict-vector", decoy={"poisson": 0.123, "mindist": 77.0})
+    opts_ok = True
     if fitted:
-        de = np.array([rnd.uniform(-5, 5) for _ in range(m)])
-        dn = np.array([rnd.uniform(-5, 5) for _ in range(m)])
-        vs.fit((fe, fn), (de, dn))
+        if use_fc:
+            nd = m + rnd.randint(0, 3)
+            pe = np.array([rnd.uniform(-20, 20) for _ in range(nd)]); pn = np.array([rnd.uniform(-20, 20) for _ in range(nd)])
+        else:
+            pe, pn = fe, fn
+        de = np.array([rnd.uniform(-5, 5) for _ in range(pe.size)])
+        dn = np.array([rnd.uniform(-5, 5) for _ in range(pe.size)])
+        vs.fit((pe, pn), (de, dn))
+        fc = vs.force_coords
+        opts_ok = (len(fc) == 2 and np.array_equal(fc[0], fe) and np.array_equal(fc[1], fn)
+                   and _ls_ok(vs.force_, vs.jacobian((pe, pn), (fe, fn)), np.concatenate([de, dn]), None))
     else:
         vs.force_coords = (fe, fn)
         vs.force_ = np.array([rnd.choice([rnd.uniform(-3, 3), rnd.uniform(-1e3, 1e3), 0.0, 1.0]) for _ in range(2 * m)])
         vs.region_ = (-20, 20, -20, 20)
     ye, yn = vs.predict((qe, qn))
     J = vs.jacobian((qe, qn), vs.force_coords)
-    shape_ok = (ye.shape == qe.shape) and (yn.shape == qe.shape) and J.shape == (2 * qe.size, 2 * m)
+    Jref = vd.VectorSpline2D(poisson=nu, mindist=md).jacobian((qe, qn), (fe, fn))   # the kernel of the options in force
+    opts_ok = bool(opts_ok and J.shape == Jref.shape and np.array_equal(J, Jref, equal_nan=True))
+    shape_ok = (ye.shape == qe.shape) and (yn.shape == qe.shape) and J.shape == (2 * qe.size, 2 * m) and opts_ok
     term = ("c03_predict2 %s %s %s %s %s" % (cmat(J), cvec(vs.force_), cvec(ye), cvec(yn), cbool(shape_ok))) if _fin(J, vs.force_, ye, yn) else "c03_flag false"
-    inp = {"gridder": "VectorSpline2D", "mindist": md, "poisson": nu, "fitted": fitted, "force_east": fe.tolist(),
+    inp = {"gridder": "VectorSpline2D", "configured": how, "force_coords_option": bool(use_fc), "mindist": md, "poisson": nu, "fitted": fitted, "force_east": fe.tolist(),
            "force_north": fn.tolist(), "force": vs.force_.tolist(), "query_east": qe.tolist(), "query_north": qn.tolist()}
     repro = ("import verde, numpy as np; s = verde.VectorSpline2D(poisson=%r, mindist=%r); "
              "s.force_coords = (np.array(%r), np.array(%r)); s.force_ = np.array(%r); q = (np.array(%r), np.array(%r)); "
@@ -523,9 +619,10 @@ def trend_jac_case(vd, rnd, N, kind):
         e[0] = 0.0
     if rnd.random() < 0.3:
         e = e + rnd.uniform(-1, 1)      # non-dyadic: powers are rounded
-    J = vd.Trend(degree=N).jacobian((e, nn))
+    tr, how = conf(vd.Trend, {"degree": N}, "trend-jacobian", decoy={"degree": N + 2}, required=("degree",))
+    J = tr.jacobian((e, nn))
     term = ("c03_trend_jac %s %s %s %s" % (cN(N), cvec(e), cvec(nn), cmat(J))) if _fin(J) else "c03_flag false"
-    return Case({"fn": "Trend.jacobian", "degree": N, "east": e.tolist(), "north": nn.tolist()},
+    return Case({"fn": "Trend.jacobian", "configured": how, "degree": N, "east": e.tolist(), "north": nn.tolist()},
                 {"shape": list(J.shape), "first_row": J[0].tolist()}, term,
                 "import verde, numpy as np; print(verde.Trend(degree=%d).jacobian((np.array(%r), np.array(%r))))" % (N, e.tolist(), nn.tolist()),
                 kind)
@@ -535,7 +632,7 @@ def trend_predict_case(vd, rnd, N, fitted, kind):
     ncoef = (N + 1) * (N + 2) // 2
     shape_kind = rnd.choice(SHAPES)
     qe, qn = _query(rnd, shape_kind, -3.0, 3.0)
-    tr = vd.Trend(degree=N)
+    tr, how = conf(vd.Trend, {"degree": N}, "trend-predict", decoy={"degree": N + 1}, required=("degree",))
     if fitted:
         k = ncoef + rnd.randint(0, 4)
         de = np.array([rnd.uniform(-3, 3) for _ in range(k)])
@@ -547,7 +644,7 @@ def trend_predict_case(vd, rnd, N, fitted, kind):
     y = tr.predict((qe, qn))
     shape_ok = y.shape == qe.shape
     term = ("c03_trend_predict %s %s %s %s %s %s" % (cN(N), cvec(qe), cvec(qn), cvec(tr.coef_), cvec(y), cbool(shape_ok))) if _fin(tr.coef_, y) else "c03_flag false"
-    return Case({"fn": "Trend.predict", "degree": N, "fitted": fitted, "coef": np.asarray(tr.coef_).tolist(),
+    return Case({"fn": "Trend.predict", "configured": how, "degree": N, "fitted": fitted, "coef": np.asarray(tr.coef_).tolist(),
                  "east": qe.tolist(), "north": qn.tolist()}, {"predict": np.asarray(y).ravel().tolist()}, term,
                 "import verde, numpy as np; t = verde.Trend(degree=%d); t.coef_ = np.array(%r); print(t.predict((np.array(%r), np.array(%r))))"
                 % (N, np.asarray(tr.coef_).tolist(), qe.tolist(), qn.tolist()), kind)
@@ -562,12 +659,13 @@ def translation_case(vd, rnd, vector, kind, idx=0):
     with warnings.catch_warnings():
         warnings.simplefilter("ignore")
         if vector:
-            g = vd.VectorSpline2D(poisson=[-1.0, 0.5, 0.0, -0.3, 1.0][(idx // 2) % 5], mindist=rnd.choice([1.0, 10e3, 0.25]))
-            desc = {"gridder": "VectorSpline2D", "poisson": g.poisson, "mindist": g.mindist}
+            g, how = conf(vd.VectorSpline2D, {"poisson": [-1.0, 0.5, 0.0, -0.3, 1.0][(idx // 2) % 5], "mindist": rnd.choice([1.0, 10e3, 0.25])},
+                          "translation-vector", decoy={"poisson": 0.123, "mindist": 77.0})
+            desc = {"gridder": "VectorSpline2D", "configured": how, "poisson": g.poisson, "mindist": g.mindist}
         else:
             md = rnd.choice([0.0, 0.0, 0.5])
-            g = vd.Spline(mindist=md if md else None)
-            desc = {"gridder": "Spline", "mindist": md}
+            g, how = conf_spline(vd, float(md), "translation-spline")
+            desc = {"gridder": "Spline", "configured": how, "mindist": md}
         J1 = g.jacobian((pe, pn), (fe, fn))
         J2 = g.jacobian((pe + a, pn + b), (fe + a, fn + b))
     exact = all(float(Fraction(x) + Fraction(a)) == x + a for x in list(pe) + list(fe)) and \
@@ -586,13 +684,20 @@ def translation_case(vd, rnd, vector, kind, idx=0):
 def scipy_case(vd, rnd, cls_name, rescale, kind):
     from scipy.interpolate import CloughTocher2DInterpolator, LinearNDInterpolator
     n = rnd.randint(6, 25)
-    sx, sy = rnd.choice([(1000.0, 1.0), (1.0, 1e-3), (50.0, 1.0)]) if rescale or rnd.random() < 0.7 else (1.0, 1.0)
+    # anisotropic coordinates (scales differing by 1e3 .. 1e6) so that the rescale option matters; a few isotropic ones
+    sx, sy = rnd.choice([(1e3, 1.0), (1.0, 1e-3), (1e4, 1.0), (1.0, 1e-5), (1e6, 1.0), (2e5, 30.0)]) if rescale or rnd.random() < 0.85 else (1.0, 1.0)
     e = np.array([rnd.uniform(-1, 1) * sx for _ in range(n)]); nn = np.array([rnd.uniform(-1, 1) * sy for _ in range(n)])
     data = np.array([rnd.uniform(-10, 10) for _ in range(n)])
     shape_kind = rnd.choice(["1d", "2d"])
     qe, qn = _query(rnd, shape_kind, -1.2, 1.2)
     qe = qe * sx; qn = qn * sy
-    g = getattr(vd, cls_name)(rescale=rescale).fit((e, nn), data)
+    g, how = conf(getattr(vd, cls_name), {"rescale": rescale}, kind, decoy={"rescale": not rescale}, required=("rescale",))
+    if how.startswith("set_params") and rnd.random() < 0.5:
+        # the option changes between two fits: the second fit must follow the option then in force
+        g.set_params(rescale=not rescale).fit((e, nn), data)
+        g.set_params(rescale=rescale)
+        how += ", refitted after a fit with the other value"
+    g.fit((e, nn), data)
     y = g.predict((qe, qn))
     ref_cls = LinearNDInterpolator if cls_name == "Linear" else CloughTocher2DInterpolator
     pts = np.column_stack((e, nn))
@@ -600,12 +705,12 @@ def scipy_case(vd, rnd, cls_name, rescale, kind):
     other = ref_cls(pts, data, rescale=not rescale)((qe, qn))
     same = bool(y.shape == ref.shape and np.array_equal(y, ref, equal_nan=True))
     sensitive = not np.array_equal(ref, other, equal_nan=True)
-    return Case({"gridder": cls_name, "rescale": rescale, "east": e.tolist(), "north": nn.tolist(), "data": data.tolist(),
+    return Case({"gridder": cls_name, "configured": how, "rescale": rescale, "east": e.tolist(), "north": nn.tolist(), "data": data.tolist(),
                  "query_east": qe.tolist(), "query_north": qn.tolist()},
                 {"predict": np.asarray(y).ravel().tolist(), "scipy": np.asarray(ref).ravel().tolist(),
                  "rescale_changes_result": bool(sensitive)}, "c03_flag %s" % cbool(same),
-                "# verde.%s(rescale=%r).fit(...).predict(q) vs scipy interpolator(points, data, rescale=%r)(q) for the listed input"
-                % (cls_name, rescale, rescale), kind, nontrivial=bool(sensitive))
+                "# verde.%s with rescale=%r (configured by: %s).fit(...).predict(q) vs scipy interpolator(points, data, rescale=%r)(q) for the listed input"
+                % (cls_name, rescale, how, rescale), kind, nontrivial=bool(sensitive))
 
 
 def finite_case(vd, rnd, vector, kind, i_tiny=None, idx=0):
@@ -616,18 +721,19 @@ def finite_case(vd, rnd, vector, kind, i_tiny=None, idx=0):
         warnings.simplefilter("ignore")
         if vector:
             md = rnd.choice([10e3, 1.0, 1e-6] + TINY) if i_tiny is None else TINY[i_tiny % len(TINY)]
-            g = vd.VectorSpline2D(poisson=[-1.0, 0.5, 0.0, 1.0][(idx // 2) % 4], mindist=md)
+            g, how = conf(vd.VectorSpline2D, {"poisson": [-1.0, 0.5, 0.0, 1.0][(idx // 2) % 4], "mindist": md}, "finite-vector",
+                          decoy={"poisson": 0.123, "mindist": 77.0})
             J = g.jacobian((pe, pn), (pe, pn))
             g.force_coords = (pe, pn); g.force_ = np.ones(2 * n)
             y = np.concatenate(g.predict((pe, pn)))
-            desc = {"gridder": "VectorSpline2D", "poisson": g.poisson, "mindist": md}
+            desc = {"gridder": "VectorSpline2D", "configured": how, "poisson": g.poisson, "mindist": md}
         else:
             md = rnd.choice([0.0, 0.0, 1e-3, 1.0, 1e-300, 5e-324])
-            g = vd.Spline(mindist=md if md else None)
+            g, how = conf_spline(vd, float(md), "finite-spline")
             J = g.jacobian((pe, pn), (pe, pn))
             g.force_coords_ = (pe, pn); g.force_ = np.ones(n)
             y = g.predict((pe, pn))
-            desc = {"gridder": "Spline", "mindist": md}
+            desc = {"gridder": "Spline", "configured": how, "mindist": md}
     vals = list(np.asarray(J).ravel()) + list(np.asarray(y).ravel())
     term = "c03_finite %s" % clist([cOD(x) for x in vals])
     desc.update({"east": pe.tolist(), "north": pn.tolist(), "forces_at_data_points": True})
@@ -638,15 +744,16 @@ def finite_case(vd, rnd, vector, kind, i_tiny=None, idx=0):
 def half_case(vd, region, k=0, waves=(700.0, 300.0)):
     """the w_east_ / w_north_ properties: the given value bit for bit, or exactly half of the extent"""
     we, wn = _cb_options(k, region, waves)
-    cb = vd.synthetic.CheckerBoard(region=region, w_east=we, w_north=wn)
+    cb, how = conf(vd.synthetic.CheckerBoard, {"region": region, "w_east": we, "w_north": wn}, "checkerboard-wavelength",
+                   decoy={"region": (-1.0, 9.0, 5.0, 6.0), "w_east": 11.0, "w_north": 0.7})
     cases = []
     for lo, hi, given, w, nm in ((region[0], region[1], we, cb.w_east_, "w_east"), (region[2], region[3], wn, cb.w_north_, "w_north")):
         if given is None:
             term = "c03_half %s %s %s" % (cD(lo), cD(hi), cD(w))
         else:
             term = "c03_same [[%s]] [[%s]] true" % (cD(w), cD(given))
-        cases.append(Case({"fn": "CheckerBoard." + nm + "_", "options": CB_OPTIONS[k % 4], "region": list(region), "w_east": we, "w_north": wn},
-                          {nm + "_": float(w)}, term,
+        cases.append(Case({"fn": "CheckerBoard." + nm + "_", "options": CB_OPTIONS[k % 4], "region": list(region), "w_east": we, "w_north": wn,
+                           "configured": how}, {nm + "_": float(w)}, term,
                           "import verde; print(verde.synthetic.CheckerBoard(region=%r, w_east=%r, w_north=%r).%s_)" % (tuple(region), we, wn, nm),
                           "checkerboard-wavelength-" + CB_OPTIONS[k % 4]))
     return cases
@@ -669,11 +776,12 @@ def generate(tier, seed):
     import verde as vd
     rnd = random.Random(seed)
     quick = tier == "quick"
+    _COUNT.clear()
     certs = spline_samples(vd, rnd, tier) + elastic_samples(vd, rnd, tier) + checker_samples(vd, rnd, tier)
     cases = cert_cases(certs, tier)
     npred = 12 if quick else 120
     for i in range(npred):
-        cases += _guard(predict_spline_case, "predict-spline", vd, rnd, fitted=bool(i % 2), kind="predict-spline")
+        cases += _guard(predict_spline_case, "predict-spline", vd, rnd, fitted=bool(i % 2), kind="predict-spline", idx=i)
         cases += _guard(predict_vector_case, "predict-vector", vd, rnd, fitted=bool(i % 2), kind="predict-vector", idx=i)
     for N in range(0, 9 if quick else 13):
         cases += _guard(combos_case, "trend-combinations", N)
